@@ -144,8 +144,10 @@ def flatten_union(n):
     return [py_type(n)]
 
 
-def py_target(n):
+def py_target(n, declares_this_var=False):
     """Assignment-like target. Name ctx kept; attribute/subscript targets compared structurally."""
+    if declares_this_var and isinstance(n, ast.Attribute) and isinstance(n.value, ast.Name) and n.value.id == 'self':
+        return ('AttrDecl', 'self', n.attr)
     if isinstance(n, ast.Name):
         return ('Name', n.id, 'store')
     if isinstance(n, ast.Tuple):
@@ -210,16 +212,21 @@ def classify_def(n: ast.FunctionDef, env) -> str:
 
 
 def py_stmt(n, env='module'):
+    # a statement directly in the body of __init__: `self.x = v` / `self.x: T = v` declares the instance variable x
+    # (anywhere else the same text refers to an existing attribute)
+    in_ctor = env == 'ctor'
+    if in_ctor:
+        env = 'function'
     if isinstance(n, ast.Expr):
         return ('Expr', py_expr(n.value))
     if isinstance(n, ast.Assign):
         if len(n.targets) != 1:
             return ('ChainAssign', tuple(py_target(t) for t in n.targets), py_expr(n.value))
         t = n.targets[0]
-        targets = tuple(py_target(e) for e in t.elts) if isinstance(t, ast.Tuple) else (py_target(t),)
+        targets = tuple(py_target(e) for e in t.elts) if isinstance(t, ast.Tuple) else (py_target(t, in_ctor),)
         return ('Assign', targets, py_expr(n.value))
     if isinstance(n, ast.AnnAssign):
-        return ('AnnAssign', py_target(n.target), py_type(n.annotation), py_opt(n.value))
+        return ('AnnAssign', py_target(n.target, in_ctor), py_type(n.annotation), py_opt(n.value))
     if isinstance(n, ast.AugAssign):
         return ('AugAssign', strip_ctx(py_target(n.target)), BINOPS[type(n.op)] + '=', py_expr(n.value))
     if isinstance(n, ast.Return):
@@ -268,7 +275,7 @@ def py_stmt(n, env='module'):
         items = tuple(('WithItem', py_expr(i.context_expr), i.optional_vars.id if i.optional_vars is not None else '') for i in n.items)
         return ('With', items, py_block(n.body, env))
     if isinstance(n, ast.FunctionDef):
-        return ('Def', classify_def(n, env), n.name, py_decorators(n.decorator_list), py_params(n.args), py_type(n.returns), py_block(strip_doc(n.body), 'function'))
+        return ('Def', classify_def(n, env), n.name, py_decorators(n.decorator_list), py_params(n.args), py_type(n.returns), py_block(strip_doc(n.body), 'ctor' if n.name == '__init__' else 'function'))
     if isinstance(n, ast.ClassDef):
         if n.keywords:
             raise Unsupported('class keywords')
@@ -322,7 +329,7 @@ def tr_expr(n):
     if isinstance(n, defs.Declable):
         if isinstance(n, defs.DeclThisVar):
             recv, _, prop = n.tokens.rpartition('.')
-            return ('Attr', ('Name', recv, 'load'), prop)
+            return ('AttrDecl', recv, prop)
         return ('Name', n.tokens, 'store')
     if isinstance(n, defs.Var):
         return ('Name', n.tokens, 'load')
@@ -525,17 +532,39 @@ def tr_stmt(n):
         return ('With', items, tr_block(n.statements))
     if isinstance(n, defs.Function):
         params = tuple(('param', p.packing, p.symbol.tokens, tr_type(p.var_type), tr_expr(p.default_value)) for p in n.parameters)
-        return ('Def', FUNC_KIND[type(n).__name__], n.symbol.tokens, tr_decorators(n.decorators), params, tr_type(n.return_type), tr_block(n.statements))
+        return ('Def', FUNC_KIND[type(n).__name__], n.symbol.tokens, tr_decorators(n.decorators), params, tr_type(n.return_type), tr_body(n))
     if isinstance(n, defs.Class):
-        return ('Class', n.symbol.tokens, tr_decorators(n.decorators), tuple(tr_type(t) for t in n.inherits), tr_block(n.statements))
+        return ('Class', n.symbol.tokens, tr_decorators(n.decorators), tuple(tr_type(t) for t in n.inherits), tr_body(n))
     if isinstance(n, defs.Comment):
         return ('Comment',)
     # expression statement
     return ('Expr', tr_expr(n))
 
 
-def canon_tranp_module(entrypoint):
-    return tuple(tr_stmt(s) for s in entrypoint.statements)
+_READ_ORDER = ['declared']
+
+
+def tr_body(n):
+    """Body of a class / function: the leading docstring (tranp: `comment`) followed by the statements, as CPython's body
+    lists them. The two properties are read in the order the caller selected (declared: comment first)."""
+    import ast as _ast
+    defs = _defs()
+    if _READ_ORDER[0] == 'statements-first':
+        st = tr_block(n.statements)
+        c = n.comment
+    else:
+        c = n.comment
+        st = tr_block(n.statements)
+    doc = () if isinstance(c, defs.Empty) else (('Expr', ('Str', _ast.literal_eval(c.tokens))),)
+    return doc + st
+
+
+def canon_tranp_module(entrypoint, read_order='declared'):
+    _READ_ORDER[0] = read_order
+    try:
+        return tuple(tr_stmt(s) for s in entrypoint.statements)
+    finally:
+        _READ_ORDER[0] = 'declared'
 
 
 def first_diff(a, b, path='root'):
